@@ -457,9 +457,10 @@ theorem step_no (s : St) (op : Op) (hi : Inv s) (hp : PB s) (hn : NO s) : NO (st
     simp only [step]
     split
     · rename_i s' hr
-      rcases setSheetName_full s s' a b hr with rfl | ⟨p, _, _, _, _, _, rfl⟩
+      rcases setSheetName_full s s' a b hr with rfl | ⟨p, _, _, _, _, _, rfl⟩ | ⟨_, rfl⟩
       · exact hn
-      · exact no_map s _ (fun x => by split <;> exact ⟨rfl, rfl⟩) hn _
+      · exact no_defs _ _ (no_map s _ (fun x => by split <;> exact ⟨rfl, rfl⟩) hn _)
+      · exact no_defs s _ hn
     · exact hn
   | visible n v vh =>
     simp only [step]
@@ -481,7 +482,7 @@ theorem step_no (s : St) (op : Op) (hi : Inv s) (hp : PB s) (hn : NO s) : NO (st
     split
     · rename_i s' hu; exact no_keysSub (ungroupLoop_keysSub _ _ _ s s' hu) hn
     · exact hn
-  | defname k sc =>
+  | defname k sc dt =>
     simp only [step]
     split
     · rename_i s' hd
